@@ -349,6 +349,7 @@ class World:
         if known is not None:
             _alias_renamed(w, known)
             _inline_new_helpers(w, known)
+        _sink_ref_writes(w)
         return w
 
     def body(self, id):
@@ -563,6 +564,109 @@ def _inline_new_helpers(w, known, max_rounds=3, max_blocks=400):
         w.bodies.pop(c, None)
     w._children = None
     w._callers = None
+
+
+def _sink_ref_writes(w):
+    """Normalisation: `*r = CONST` where r can only hold `&mut <field place>` references taken in this body (possibly on different
+    branches: `let r = if c { &mut self.a } else { &mut self.b }; *r = V`, typically a small `fn slot_mut(..) -> &mut T` helper that
+    was inlined) is rewritten as a direct write `<field place> = CONST` at each point where the reference is taken.  Only constant
+    right-hand sides (a field-less enum variant, a literal) are moved, so the value cannot depend on anything in between."""
+    w.sunk_writes = 0
+    for b in w.bodies.values():
+        if len(b.blocks) > 600:
+            continue
+        defs = None
+        for bi, bl in enumerate(b.blocks):
+            k = 0
+            while k < len(bl["st"]):
+                s = bl["st"][k]
+                if "p" not in s or s["p"].get("p") != ["*"] or 1 <= s["p"]["l"] <= b.argc:
+                    k += 1
+                    continue
+                rv = _const_rv(b, s["r"])
+                if rv is None:
+                    k += 1
+                    continue
+                if defs is None:
+                    defs = _raw_defs(b)
+                leaves = _ref_leaves(b, defs, s["p"]["l"], 0, set())
+                if not leaves:
+                    k += 1
+                    continue
+                for (lb, li, place) in sorted(leaves, key=lambda x: (x[0], -x[1])):
+                    b.blocks[lb]["st"].insert(li + 1, {"p": place, "r": rv, "s": s.get("s", ""), "sunk": True})
+                    if lb == bi and li < k:
+                        k += 1
+                del bl["st"][k]
+                w.sunk_writes += 1
+                defs = None
+                b._succ = b._pred = b._defs = None
+    return w.sunk_writes
+
+
+def _const_rv(b, r):
+    if r["k"] == "agg" and not r.get("ops") and r.get("ak") == "adt":
+        return r
+    if r["k"] == "use":
+        o = r["o"]
+        if op_const(o) is not None:
+            return r
+        p = o.get("m") or o.get("c")
+        if isinstance(p, dict) and "l" in p and not p.get("p") and not (1 <= p["l"] <= b.argc):
+            ds = [(bi, k, s) for bi, bl in enumerate(b.blocks) for k, s in enumerate(bl["st"]) if "p" in s and s["p"]["l"] == p["l"] and not s["p"].get("p")]
+            if len(ds) == 1 and ds[0][2]["r"]["k"] == "agg" and not ds[0][2]["r"].get("ops") and ds[0][2]["r"].get("ak") == "adt":
+                return ds[0][2]["r"]
+    return None
+
+
+def _raw_defs(b):
+    d = {}
+    for bi, bl in enumerate(b.blocks):
+        for k, s in enumerate(bl["st"]):
+            if "p" in s and not s["p"].get("p"):
+                d.setdefault(s["p"]["l"], []).append((bi, k, s))
+        t = bl["term"]
+        if t["k"] == "call" and isinstance(t.get("d"), dict) and not t["d"].get("p"):
+            d.setdefault(t["d"]["l"], []).append((bi, "term", t))
+    return d
+
+
+def _ref_leaves(b, defs, l, depth, seen):
+    """[(block, stmt index, place)] of the `&mut <place with a field>` borrows local l may hold; None if l can hold anything else"""
+    if depth > 8 or l in seen or 1 <= l <= b.argc:
+        return None
+    seen = seen | {l}
+    ds = defs.get(l, [])
+    if not ds:
+        return None
+    out = []
+    for bi, k, s in ds:
+        if k == "term":
+            return None
+        r = s["r"]
+        if r["k"] == "ref" and r.get("bk") in ("mut", "Mut"):
+            pl = r["p"]
+            pr = pl.get("p") or []
+            if pr == ["*"]:
+                sub_ = _ref_leaves(b, defs, pl["l"], depth + 1, seen)
+                if sub_ is None:
+                    return None
+                out += sub_
+            elif any(isinstance(e, dict) and e.get("f") is not None for e in pr):
+                out.append((bi, k, pl))
+            else:
+                return None
+        elif r["k"] == "use":
+            q = (r["o"].get("m") or r["o"].get("c")) if isinstance(r["o"], dict) else None
+            if not isinstance(q, dict) or "l" not in q or q.get("p"):
+                return None
+            sub_ = _ref_leaves(b, defs, q["l"], depth + 1, seen)
+            if sub_ is None:
+                return None
+            out += sub_
+        else:
+            return None
+    return out
 
 
 def _sig(w, fid):
